@@ -49,10 +49,9 @@ def _chem_env(avail):
          quick=[dict(n=2, nfill=2, ntrace=2, prof='array'), dict(n=3, nfill=3, ntrace=1, prof='array'),
                 dict(n=4, nfill=3, ntrace=2, prof='constant'), dict(n=2, nfill=1, ntrace=2, prof='array'),
                 dict(n=3, nfill=2, ntrace=0, prof='constant')],
-         thorough=[dict(n=3, nfill=2, ntrace=2, prof='array', _shards=4), dict(n=4, nfill=3, ntrace=2, prof='array', _shards=8),
-                   dict(n=6, nfill=3, ntrace=3, prof='constant'), dict(n=3, nfill=1, ntrace=3, prof='array', _shards=4),
-                   dict(n=12, nfill=3, ntrace=2, prof='constant'), dict(n=5, nfill=2, ntrace=1, prof='array'),
-                   dict(n=2, nfill=3, ntrace=3, prof='array', _shards=4), dict(n=3, nfill=2, ntrace=0, prof='constant')],
+         thorough=[dict(n=3, nfill=2, ntrace=2, prof='array', _shards=8), dict(n=3, nfill=3, ntrace=2, prof='array', _shards=16),
+                   dict(n=6, nfill=3, ntrace=2, prof='constant', _shards=4), dict(n=3, nfill=1, ntrace=2, prof='array', _shards=4),
+                   dict(n=8, nfill=2, ntrace=1, prof='constant'), dict(n=3, nfill=2, ntrace=0, prof='constant')],
          covers=['valid', 'rejected', 'some_active', 'some_inactive'], functions=FUNCS, shard_depth=4,
          stubs=['OpacityCache/KTableCache.find_list_of_molecules -> symbolic subset of the gases (selectors)'],
          outside=['layer counts / gas counts beyond those listed', 'ChemistryFile', 'formula parser on arbitrary strings'])
@@ -172,7 +171,7 @@ def _between(ctx, v, a, b):
                    dict(kind='array', n=6, m=3, _shards=4), dict(kind='array', n=12, m=2, _shards=4), dict(kind='array', n=3, m=6),
                    dict(kind='power', n=6), dict(kind='power', n=12)] +
                   [dict(kind='twolayer', n=k, _shards=4) for k in (2, 3, 4, 5, 6, 8)] +
-                  [dict(kind='twolayer', n=k, sorted_only=True, smooth=s) for k in (10, 12, 15, 20, 25, 30) for s in (10, 40)],
+                  [dict(kind='twolayer', n=k, sorted_only=True, smooth=10) for k in (10, 20, 30)],
          functions=FUNCS, shard_depth=3, max_paths=50000,
          stubs=['np.interp -> piecewise-linear clamped contract model', 'log10/exp10/ln/sqrt/pow: UF + monotonicity, '
                 'inverse-pair, positivity lemma instances'],
